@@ -220,7 +220,8 @@ def main(argv):
     if "--replay" in argv:
         replay = argv[argv.index("--replay") + 1]
     seed = int(os.environ.get("VERIF_SEED", "1"))
-    tier = os.environ.get("VERIF_TIER", tier)
+    if tier not in ("quick", "thorough"):
+        tier = os.environ.get("VERIF_TIER", "quick")
     res = Result(pid, tier, seed)
     res.corr_pending = []
     res.n_oracle_fail = res.n_corr_fail = 0
